@@ -155,7 +155,8 @@ Proof.
   unfold Cvol. rewrite !bridge_frank_cdf by assumption.
   pose proof (Frank.frank_rect_integral th u1 u2 v1 v2 Hth Hu1 Hu12 Hu2 Hv1 Hv12 Hv2) as HR.
   unfold Cvol in HR. rewrite <- HR.
-  apply RInt_ext. intros v Hv. apply RInt_ext. intros u Hu. apply bridge_frank_pdf; assumption.
+  apply RInt_ext. intros v Hv. apply minmax_le in Hv; [|assumption].
+  apply RInt_ext. intros u Hu. apply minmax_le in Hu; [|assumption]. apply bridge_frank_pdf; try assumption; lra.
 Qed.
 Theorem C07_gumbel_rect_integral th u1 u2 v1 v2 :
   1 < th -> 0 < u1 -> u1 <= u2 -> u2 < 1 -> 0 < v1 -> v1 <= v2 -> v2 < 1 ->
